@@ -121,14 +121,15 @@ func counterDelta(ro *Roles, st *ssa.Store) (string, int) {
 		return name, 0
 	}
 	k, ok := bo.Y.(*ssa.Const)
-	if !ok || k.Int64() != 1 {
+	if !ok || (k.Int64() != 1 && k.Int64() != -1) {
 		return name, 0
 	}
+	d := int(k.Int64()) // (`counter += -1`, the constant argument of an inlined `add(delta)` helper)
 	switch bo.Op {
 	case token.ADD:
-		return name, +1
+		return name, d
 	case token.SUB:
-		return name, -1
+		return name, -d
 	}
 	return name, 0
 }
